@@ -693,6 +693,22 @@ fn generate(a: &Args, name: &str, family: u8) -> i32 {
         }
     }
     if family == 0 || family == 3 {
+        // byte targets written as sequences of integers: every element is an ordinary u8 position (radix prefixes, `_`,
+        // leading zeros under legacy_octal_numbers, quoted / tagged elements, out-of-range values)
+        for text in ["[0010, 0017]\n", "[1, 0009]\n", "[\"1\", 2]\n", "['7']\n", "[0x1F, 0o17, 0b101, 1_0]\n", "[255, 256]\n", "[-1]\n", "[!!str 5]\n", "[!!int \"5\"]\n", "- 010\n- 08\n- 0\n- 00\n", "[1.0]\n", "[~]\n", "[+5, 05]\n"] {
+            for ty in [Ty::Bytes, Ty::Struct(vec![("b", Ty::Bytes)], false), Ty::Seq(Box::new(Ty::Int(false, 8)))] {
+                for legacy_octal in [false, true] {
+                    let text = if matches!(ty, Ty::Struct(..)) { format!("b: {}", text.replace("\n- ", "\n   - ").replacen("- ", "\n   - ", if text.starts_with('-') { 1 } else { 0 })) } else { text.to_string() };
+                    let cfg = Cfg { dup: 0, legacy_octal, strict_bool: false, ignore_binary: false, no_schema: false, budget: Some(Budget::default()), limits: AliasLimits::default() };
+                    let (items, _, _) = crate::pump::items_tokens(&text);
+                    let ans = run_single(&text, &ty, &cfg);
+                    sink.count("corpus.bytes_as_int_seq");
+                    sink.case(&format!("e2e single {} {} | {}", cfg.tokens(false), ty.tokens(), items), &ans);
+                }
+            }
+        }
+    }
+    if family == 0 || family == 3 {
         for (ty, text) in ident_corpus() {
             for (no_schema, ignore_binary) in [(false, false), (true, false), (false, true)] {
                 let cfg = Cfg { dup: 0, legacy_octal: false, strict_bool: false, ignore_binary, no_schema, budget: Some(Budget::default()), limits: AliasLimits::default() };
